@@ -97,7 +97,7 @@ def run_ops(ops, env):
                 V.W.events.append(("xp_exit", op["name"], env["proc"].pid))
             finally:
                 if xp is not None:
-                    xrec["unfinished"] = getattr(xp, "unfinishedJobs", None)
+                    xrec["unfinished"] = X._count(getattr(xp, "unfinishedJobs", None))
                     xrec["registry"] = len(xp.scheduler.jobs)
         elif k == "token":
             xp = env["xps"][-1]
